@@ -305,7 +305,7 @@ func (logicFamily) Exec(c *hc.Case) {
 
 func (logicFamily) Emit(w io.Writer, f *hc.File) {
 	fmt.Fprintln(w, "From CV Require Import Base.Prelude Seq.RollingCounter Seq.TimedCheck Seq.Logic Seq.CaseCheck Seq.LogicCase.")
-	fmt.Fprintf(w, "Definition t0 : Z := %d.\n", hc.T0.UnixNano())
+	fmt.Fprintf(w, "Definition t0 : Z := %s.\n", hc.ZofTime(hc.T0))
 	fmt.Fprintln(w, "Definition cases : list logic_case := [")
 	for i, c := range f.Cases {
 		var p logicParams
